@@ -857,6 +857,9 @@ func (u *Unit) applyContract(fr *Frame, ct *Contract, name string, c *ssa.CallCo
 		res.T = u.newRef(st)
 		res.NonNil = true
 	}
+	if _, fnl := ct.Opts["functional"]; fnl {
+		u.functionalResult(st, name, args, res, reach)
+	}
 	env2 := u.contractEnv(ct, params, args, st, old)
 	bindResults(env2, res, resNames)
 	for _, en := range ct.Ensures {
